@@ -9,6 +9,7 @@ import (
 	"sort"
 	"strconv"
 	"strings"
+	"sync"
 	"testing"
 	"time"
 )
@@ -145,6 +146,16 @@ func WorkerMain(t *testing.T) {
 	replayDir := os.Getenv("VERIF_REPLAY_DIR")
 	if replayDir == "" {
 		replayDir = "/verif/replays"
+	}
+
+	// self-test of the driver's crash handling: the first worker process that
+	// finds the marker file missing creates it and dies of a runtime fatal error
+	if m := os.Getenv("VERIF_SELFTEST_CRASH_ONCE"); m != "" {
+		if f, err := os.OpenFile(m, os.O_CREATE|os.O_EXCL|os.O_WRONLY, 0o644); err == nil {
+			f.Close()
+			var mu sync.Mutex
+			mu.Unlock()
+		}
 	}
 
 	t0 := time.Now()
